@@ -90,7 +90,7 @@ pub fn main(args: &[String]) {
     let mut rng = Rng::new(seed ^ 0xc15);
     let mut cases: Vec<(String, bool, String)> = vec![];
     for it in &corp { cases.push((it.text.clone(), it.kind == "lib", "corpus".into())); }
-    let ngen = if thorough { 40000 } else { 3000 };
+    let ngen = if thorough { 40000 } else { 6000 };
     for i in 0..ngen {
         let base = rng.pick(&corp); let lib = base.kind == "lib";
         let atoms = if lib { gen::LIB_ATOMS } else { gen::SV_ATOMS };
